@@ -68,7 +68,9 @@ func TestVerifValidateStart(t *testing.T) {
 		t.Fatal(err)
 	}
 	var cases []map[string]interface{}
-	if err := json.Unmarshal(b, &cases); err != nil {
+	dec := json.NewDecoder(strings.NewReader(string(b)))
+	dec.UseNumber() // 64-bit values must not go through float64
+	if err := dec.Decode(&cases); err != nil {
 		t.Fatal(err)
 	}
 	certPEM, _, err := generateCert()
@@ -78,8 +80,9 @@ func TestVerifValidateStart(t *testing.T) {
 	blk, _ := pem.Decode(certPEM)
 	realCert := base64.RawStdEncoding.EncodeToString(blk.Bytes)
 	num := func(c map[string]interface{}, k string) int64 {
-		if v, ok := c[k].(float64); ok {
-			return int64(v)
+		if v, ok := c[k].(json.Number); ok {
+			n, _ := v.Int64()
+			return n
 		}
 		return 0
 	}
